@@ -479,6 +479,14 @@ func init() {
 			}
 			return nil, false
 		},
+		"math": func(x *X, fn *ssa.Function, a []Value) (Value, bool) {
+			res := fn.Signature.Results()
+			if res.Len() == 1 && isFloat(res.At(0).Type()) && fn.Signature.Recv() == nil {
+				x.note("floating-point operation havocked")
+				return x.freshVar("math."+fn.Name(), 64), true
+			}
+			return nil, false
+		},
 		"fmt": func(x *X, fn *ssa.Function, a []Value) (Value, bool) {
 			switch fn.Name() {
 			case "Printf", "Println", "Print", "Fprintf", "Fprintln", "Fprint":
